@@ -119,16 +119,29 @@ theorem asmJmp_resp (c : Cur) (id : Nat) : Resp (fun h => asmJmp h c id) := by
   cases hl : l[id]? with
   | none => simp
   | some le =>
-    cases hb : le.bound with
-    | none => simp only [hb]; split <;> simp [Holder.write, Holder.addFixup]
-    | some so =>
-      obtain ⟨s0, tgt⟩ := so
-      simp only [hb]
-      split
-      · split
-        · simp [Holder.write]
-        · split <;> simp [Holder.write]
-      · simp
+    simp only []
+    by_cases ha : (a == some Arch.a64) = true
+    · simp only [ha, if_true]
+      cases hb : le.bound with
+      | none => simp [Holder.write, Holder.addFixup]
+      | some so =>
+        obtain ⟨s0, tgt⟩ := so
+        simp only []
+        by_cases hs : (s0 == c.sec) = true
+        · simp only [hs, if_true]
+          cases encodeA64B ((tgt : Int) - (c.off : Int)) <;> simp [Holder.write]
+        · simp only [hs]; simp
+    · simp only [ha]
+      cases hb : le.bound with
+      | none => simp only [Bool.false_eq_true, if_false]; split <;> simp [Holder.write, Holder.addFixup]
+      | some so =>
+        obtain ⟨s0, tgt⟩ := so
+        simp only [Bool.false_eq_true, if_false]
+        split
+        · split
+          · simp [Holder.write]
+          · split <;> simp [Holder.write]
+        · simp
 
 theorem asmElabelSz_resp (c : Cur) (id sz : Nat) : Resp (fun h => asmElabelSz h c id sz) := by
   intro h
@@ -194,19 +207,19 @@ theorem serialize_resp (ns : List Node) : ∀ c, Resp (fun h => serialize h c ns
 /-! ### emitter level -/
 
 theorem cur_obs (e : Emitter) (hk : e.kind = .asm) : e.obs.cur = e.cur := by
-  cases e with | mk k _ _ _ _ _ _ _ _ _ _ _ _ _ _ _ _ _ _ _ _ _ =>
+  cases e with | mk k _ _ _ _ _ _ _ _ _ _ _ _ _ _ _ _ _ _ _ _ _ _ =>
   simp only at hk; subst hk; rfl
 
 theorem setCur_resp (e : Emitter) (c : Cur) : (e.setCur c).obs = (e.obs.setCur c).obs := by
-  cases e with | mk k _ _ _ _ _ _ _ _ _ _ _ _ _ _ _ _ _ _ _ _ _ =>
+  cases e with | mk k _ _ _ _ _ _ _ _ _ _ _ _ _ _ _ _ _ _ _ _ _ _ =>
   cases k <;> simp [Emitter.setCur, Emitter.obs]
 
 theorem addNode_resp (e : Emitter) (n : Node) (hk : e.kind ≠ .asm) : (e.addNode n).obs = (e.obs.addNode n).obs := by
-  cases e with | mk k _ _ _ _ _ _ _ _ _ cur _ _ _ _ _ _ _ _ _ _ _ =>
+  cases e with | mk k _ _ _ _ _ _ _ _ _ cur _ _ _ _ _ _ _ _ _ _ _ _ =>
   cases k <;> cases cur <;> simp_all [Emitter.addNode, Emitter.obs]
 
 theorem bldSwitch_resp (e : Emitter) (s : Nat) (hk : e.kind ≠ .asm) : (e.bldSwitch s).obs = (e.obs.bldSwitch s).obs := by
-  cases e with | mk k _ _ _ _ _ _ _ _ nodes _ _ _ _ _ _ _ _ _ _ _ _ =>
+  cases e with | mk k _ _ _ _ _ _ _ _ nodes _ _ _ _ _ _ _ _ _ _ _ _ _ =>
   cases k
   · simp at hk
   all_goals
@@ -216,35 +229,35 @@ theorem bldSwitch_resp (e : Emitter) (s : Nat) (hk : e.kind ≠ .asm) : (e.bldSw
 /-- field updates used by the step function -/
 theorem upd_labelNodes_resp (e : Emitter) (x : Nat) (hk : e.kind ≠ .asm) :
     ({ e with labelNodes := x } : Emitter).obs = ({ e.obs with labelNodes := x } : Emitter).obs := by
-  cases e with | mk k _ _ _ _ _ _ _ _ _ _ _ _ _ _ _ _ _ _ _ _ _ => cases k <;> simp_all [Emitter.obs]
+  cases e with | mk k _ _ _ _ _ _ _ _ _ _ _ _ _ _ _ _ _ _ _ _ _ _ => cases k <;> simp_all [Emitter.obs]
 
 theorem clearOneShot_resp (e : Emitter) :
     ({ e with instOpts := 0, comment := false } : Emitter).obs = ({ e.obs with instOpts := 0, comment := false } : Emitter).obs := by
-  cases e with | mk k _ _ _ _ _ _ _ _ _ _ _ _ _ _ _ _ _ _ _ _ _ => cases k <;> simp [Emitter.obs]
+  cases e with | mk k _ _ _ _ _ _ _ _ _ _ _ _ _ _ _ _ _ _ _ _ _ _ => cases k <;> simp [Emitter.obs]
 
 theorem instOpts_obs (e : Emitter) : e.obs.instOpts = e.instOpts := by
-  cases e with | mk k _ _ _ _ _ _ _ _ _ _ _ _ _ _ _ _ _ _ _ _ _ => cases k <;> rfl
+  cases e with | mk k _ _ _ _ _ _ _ _ _ _ _ _ _ _ _ _ _ _ _ _ _ _ => cases k <;> rfl
 theorem labelNodes_obs (e : Emitter) (hk : e.kind ≠ .asm) : e.obs.labelNodes = e.labelNodes := by
-  cases e with | mk k _ _ _ _ _ _ _ _ _ _ _ _ _ _ _ _ _ _ _ _ _ => cases k <;> simp_all [Emitter.obs]
+  cases e with | mk k _ _ _ _ _ _ _ _ _ _ _ _ _ _ _ _ _ _ _ _ _ _ => cases k <;> simp_all [Emitter.obs]
 theorem nodes_obs (e : Emitter) (hk : e.kind ≠ .asm) : e.obs.nodes = e.nodes := by
-  cases e with | mk k _ _ _ _ _ _ _ _ _ _ _ _ _ _ _ _ _ _ _ _ _ => cases k <;> simp_all [Emitter.obs]
+  cases e with | mk k _ _ _ _ _ _ _ _ _ _ _ _ _ _ _ _ _ _ _ _ _ _ => cases k <;> simp_all [Emitter.obs]
 theorem vregs_obs (e : Emitter) (hk : e.kind = .cmp) : e.obs.vregs = e.vregs := by
-  cases e with | mk k _ _ _ _ _ _ _ _ _ _ _ _ _ _ _ _ _ _ _ _ _ => simp only at hk; subst hk; rfl
+  cases e with | mk k _ _ _ _ _ _ _ _ _ _ _ _ _ _ _ _ _ _ _ _ _ _ => simp only at hk; subst hk; rfl
 theorem janns_obs (e : Emitter) (hk : e.kind = .cmp) : e.obs.janns = e.janns := by
-  cases e with | mk k _ _ _ _ _ _ _ _ _ _ _ _ _ _ _ _ _ _ _ _ _ => simp only at hk; subst hk; rfl
+  cases e with | mk k _ _ _ _ _ _ _ _ _ _ _ _ _ _ _ _ _ _ _ _ _ _ => simp only at hk; subst hk; rfl
 
 theorem upd_opts_resp (e : Emitter) (x : Nat) :
     ({ e with instOpts := x } : Emitter).obs = ({ e.obs with instOpts := x } : Emitter).obs := by
-  cases e with | mk k _ _ _ _ _ _ _ _ _ _ _ _ _ _ _ _ _ _ _ _ _ => cases k <;> simp [Emitter.obs]
+  cases e with | mk k _ _ _ _ _ _ _ _ _ _ _ _ _ _ _ _ _ _ _ _ _ _ => cases k <;> simp [Emitter.obs]
 theorem upd_cmt_resp (e : Emitter) (x : Bool) :
     ({ e with comment := x } : Emitter).obs = ({ e.obs with comment := x } : Emitter).obs := by
-  cases e with | mk k _ _ _ _ _ _ _ _ _ _ _ _ _ _ _ _ _ _ _ _ _ => cases k <;> simp [Emitter.obs]
+  cases e with | mk k _ _ _ _ _ _ _ _ _ _ _ _ _ _ _ _ _ _ _ _ _ _ => cases k <;> simp [Emitter.obs]
 theorem upd_vregs_resp (e : Emitter) (x : Nat) (hk : e.kind = .cmp) :
     ({ e with vregs := x } : Emitter).obs = ({ e.obs with vregs := x } : Emitter).obs := by
-  cases e with | mk k _ _ _ _ _ _ _ _ _ _ _ _ _ _ _ _ _ _ _ _ _ => simp only at hk; subst hk; simp [Emitter.obs]
+  cases e with | mk k _ _ _ _ _ _ _ _ _ _ _ _ _ _ _ _ _ _ _ _ _ _ => simp only at hk; subst hk; simp [Emitter.obs]
 theorem upd_janns_resp (e : Emitter) (x : Nat) (hk : e.kind = .cmp) :
     ({ e with janns := x } : Emitter).obs = ({ e.obs with janns := x } : Emitter).obs := by
-  cases e with | mk k _ _ _ _ _ _ _ _ _ _ _ _ _ _ _ _ _ _ _ _ _ => simp only at hk; subst hk; simp [Emitter.obs]
+  cases e with | mk k _ _ _ _ _ _ _ _ _ _ _ _ _ _ _ _ _ _ _ _ _ _ => simp only at hk; subst hk; simp [Emitter.obs]
 
 /-! ### world level -/
 
